@@ -92,6 +92,7 @@ inductive ApiStep : Streams → Writer → Streams → Writer → Prop
   | recvPollResponse (s : Streams) (w : Writer) (n k : Nat) (t : String) : ApiStep s w (Streams.recvPollResponse n s k t).1 w
   | recvPollInformational (s : Streams) (w : Writer) (k : Nat) (t : String) : ApiStep s w (s.recvPollInformational k t).1 w
   | refPollData (s : Streams) (w : Writer) (k : Nat) (t : String) : ApiStep s w (s.refPollData k t).1 w
+  | refPollPushed (s : Streams) (w : Writer) (k : Nat) (t : String) : ApiStep s w (s.refPollPushed k t).1 w
   | recvPollTrailers (s : Streams) (w : Writer) (k : Nat) (t : String) : ApiStep s w (s.recvPollTrailers k t).1 w
   | refReleaseCapacity (s : Streams) (w : Writer) (k c : Nat) : ApiStep s w (s.refReleaseCapacity k c).1 w
   | refClearRecvBuffer (s : Streams) (w : Writer) (k : Nat) : ApiStep s w (s.refClearRecvBuffer k) w
@@ -147,6 +148,7 @@ theorem ApiStep.hist {s s' : Streams} {w w' : Writer} (st : ApiStep s w s' w') (
   | recvPollResponse n k t => exact h.any (recvPollResponse_acc hg n k t trivial t0)
   | recvPollInformational k t => exact h.any (recvPollInformational_acc hg k t trivial t0)
   | refPollData k t => exact h.any (refPollData_acc hg k t trivial t0)
+  | refPollPushed k t => exact h.any (refPollPushed_acc hg k t (fun _ => trivial) t0)
   | recvPollTrailers k t => exact h.any (recvPollTrailers_acc hg k t trivial t0)
   | refReleaseCapacity k c => exact h.any (refReleaseCapacity_acc hg k c t0)
   | refClearRecvBuffer k => exact h.any (refClearRecvBuffer_acc hg k trivial t0)
